@@ -8,6 +8,9 @@ WT=$(mktemp -d /tmp/vseed_${ID}_XXXX)
 rmdir "$WT"
 git -C /repo worktree add -q --detach "$WT" HEAD || exit 3
 cleanup() { git -C /repo worktree remove --force "$WT" >/dev/null 2>&1; }
+# private TMPDIR: pike's store tests keep a badger database directly in $TMPDIR
+export TMPDIR="$WT.tmp"; mkdir -p "$TMPDIR"
+cleanup() { git -C /repo worktree remove --force "$WT" >/dev/null 2>&1; rm -rf "$WT.tmp"; }
 trap cleanup EXIT
 cd "$WT"
 git apply "$SEED/patch.diff" || { echo "RESULT $ID patch-does-not-apply"; exit 3; }
